@@ -383,8 +383,17 @@ def run(repo: Repo, chk: Check, thorough: bool = False) -> None:
         raise AnalysisError('R17.3: the zlib.error handler around decompress() was not found in _getPayload')
     for h in hs:
         empties = [a for st in h.body for a in ast.walk(st) if isinstance(a, ast.Assign) and isinstance(a.value, ast.Constant) and a.value.value == b'']
-        retries = any(isinstance(c, ast.Call) and call_name(c) in ('decompress', 'decompressobj') for st in h.body for c in ast.walk(st))
-        okh = retries or not empties
+        # what the handler leaves in the variable(s) the try body assigned: the LAST top-level assignment of the handler decides
+        tvars = {t.id for t_ in gp.walk() if isinstance(t_, ast.Try) and h in t_.handlers for st in t_.body for a in ast.walk(st) if isinstance(a, ast.Assign)
+                 for t in a.targets if isinstance(t, ast.Name)}
+        last = {}
+        for st in h.body:
+            if isinstance(st, ast.Assign):
+                for t in st.targets:
+                    if isinstance(t, ast.Name) and t.id in tvars:
+                        last[t.id] = st
+        empties = [a for a in last.values() if isinstance(a.value, ast.Constant) and a.value.value == b'']
+        okh = not empties
         chk.ob('R17.3', 'pydoctor.sphinx.SphinxInventory._getPayload :: a damaged stream keeps the lines before the damage', okh,
                'the handler recovers the prefix' if okh else
                f'`{norm(empties[0])}` in the zlib.error handler: one inverted byte at 3/4 of a 400-line inventory makes every entry unresolvable, although 398 lines inflate fine '
